@@ -30,12 +30,29 @@ def sym_pow(x, y):
     return Pow(x, y)
 
 
+_CURRENT_ENGINE = [None]
+
+
 def _dim_eq(a, b):
+    """extents equal: syntactically, or provably under the current path condition"""
     if isinstance(a, int) and isinstance(b, int):
         return a == b
     a = z3.simplify(a) if is_z(a) else z3.IntVal(a)
     b = z3.simplify(b) if is_z(b) else z3.IntVal(b)
-    return a.eq(b)
+    if a.eq(b):
+        return True
+    eng = _CURRENT_ENGINE[0]
+    if eng is None or eng.path is None:
+        return False
+    key = (a.get_id(), b.get_id(), len(eng.path.pc), len(eng.path.facts))
+    cache = eng.path.__dict__.setdefault("dim_eq_cache", {})
+    if key not in cache:
+        s = z3.Solver()
+        s.set("timeout", 2000)
+        s.add(*eng.path.hyps())
+        s.add(a != b)
+        cache[key] = s.check() == z3.unsat
+    return cache[key]
 
 
 def _as_dim(d):
@@ -399,6 +416,7 @@ def reduce_axis(eng, t, axis, kind):
 class TensorLib:
     def __init__(self, eng, name="numpy"):
         self.eng = eng
+        _CURRENT_ENGINE[0] = eng
         self.name = name
         self.precision = "64b"
         self.default_do_grad = False
